@@ -31,6 +31,17 @@ func allocCases(seed int64, tier string) []allocCase {
 	var cs []allocCase
 	add := func(family, desc string, text []byte) { cs = append(cs, allocCase{family, desc, hsmsFrame(text)}) }
 	leafFmt := []byte{8, 9, 16, 24, 25, 26, 28, 32, 36, 40, 41, 42, 44}
+	// 0. inputs shorter than a header, including nil and the empty slice
+	for n := 0; n < 14; n++ {
+		b := []byte{0, 0, 0, 10, 0, 7, 129, 1, 0, 0, 1, 2, 3, 4}[:n]
+		cs = append(cs, allocCase{"tiny", "", b})
+		if n >= 4 {
+			c2 := append([]byte{}, b...)
+			c2[3] = byte(n - 4)
+			cs = append(cs, allocCase{"tiny", "", c2})
+		}
+	}
+	cs = append(cs, allocCase{"tiny", "", nil})
 	// 1. short inputs declaring huge lengths, at nesting depth 0..3, every format, 1..3 length bytes
 	for depth := 0; depth <= 3; depth++ {
 		for _, code := range append([]byte{0}, leafFmt...) {
